@@ -463,6 +463,10 @@ func (v *visitor) checkFunc(fn reflect.Type, method bool, node ast.Node, name st
 		}
 
 		if t == nil {
+			// nil is an argument only for a parameter that can hold it.
+			if !isNilable(in) {
+				return v.error(arg, "cannot use nil as argument (type %v) to call %v ", in, name)
+			}
 			continue
 		}
 
